@@ -282,7 +282,13 @@ def report(ctx: click.Context, tjp_file: Optional[str], output_csv: bool, output
             if verbose:
                 logger.debug("Reading .tjp content from stdin")
 
-            stdin_content = sys.stdin.read()
+            # Take the bytes as they come: the report id is the SHA-256 of the input bytes, and
+            # input that is not valid UTF-8 is unreadable input (exit 1), as it is for a file
+            stdin_bytes = sys.stdin.buffer.read()
+            try:
+                stdin_content = stdin_bytes.decode("utf-8")
+            except UnicodeDecodeError as e:
+                raise FileNotFoundError(f"Cannot read stdin: {e}") from e
 
             if not stdin_content.strip():
                 raise FileNotFoundError("No input provided on stdin")
@@ -292,8 +298,8 @@ def report(ctx: click.Context, tjp_file: Optional[str], output_csv: bool, output
             stdin_temp_file = Path(temp_path)
 
             # Write content and close file descriptor
-            with os.fdopen(temp_fd, "w") as f:
-                f.write(stdin_content)
+            with os.fdopen(temp_fd, "wb") as f:
+                f.write(stdin_bytes)
 
             tjp_path = stdin_temp_file
 
